@@ -7,12 +7,21 @@ EXTERNAL = [
 
 PROPS = {
     "C01": {
-        "suites": [("entity", 3000, 60000)],
+        "suites": [("entity", 3000, 60000), ("rt", 2500, 60000)],
         "show_constants": True,
         "proved_scope": "character level: parse_content(serialize_text s)=s and parse_content(serialize_attribute s)=s for every string; escaped output free of raw '<' / '\"' / TAB / LF / CR",
         "not_proved": "tree level (C01_main): serializer + tokenizer contract + builder",
         "modelled": EXTERNAL,
         "assumptions": ["NoopNormalizer (identity) is the normalizer"],
+    },
+    "C08": {
+        "suites": [("idmap", 200, 3000)],
+        "show_constants": True,
+        "proved_scope": "generic in the id width: table invariant (by_value = graph of v -> to_id(index in by_id), by_id duplicate-free) holds of Xot::new() and is preserved by every registration; with at most 2^bits distinct values: equal ids <=> equal values (names: (local, namespace id)), get_value/get_id inverse, read-only lookups find exactly the registered values; id/value pairs persist under any further history (no bound); built-ins distinct and resolving to the standard strings (decide over builtinRegistrations); clone answers alike; the unbounded claim is refuted at every width (C08_wraps, C08_full_false) and at the extracted widths from Xot::new() (n65534 -> xml:space / empty prefix / no namespace)",
+        "not_proved": "that parse()/html5() perform exactly the get_id_mut calls the harness observes (covered by the `implicit` correspondence requests, not by a parser model); consequences for trees (names compare equal across trees iff expanded names equal) are the table statement plus the tree layers of C01/C09",
+        "modelled": EXTERNAL + ["ahash HashMap as a finite map (get = first match of an association list, insert = cons)"],
+        "assumptions": ["derived Clone of Vec/HashMap/String yields equal values (extractor checks the derives)",
+                        "release profile: `index as u16` truncates silently (it does in every profile)"],
     },
     "C14": {
         "suites": [("entity", 3000, 60000)],
